@@ -156,6 +156,9 @@ def id_syntax_docs():
     """every XML name is an id: gradients named with dots, colons and non-ASCII letters, used by plain and by transformed shapes"""
     G = lambda i: f'<linearGradient id="{i}"><stop offset="0" stop-color="red"/><stop offset="1" stop-color="blue"/></linearGradient>'
     H = '<svg xmlns="http://www.w3.org/2000/svg" viewBox="0 0 40 40">'
+    # a gradient is a resource wherever it is defined: inside a display:none group too
+    yield H + '<g display="none"><defs>' + G('glow') + '</defs>' + G('h2') + '</g><rect width="9" height="9" fill="url(#glow)"/><rect x="10" width="9" height="9" fill="url(#h2)"/></svg>'
+    yield H + '<g style="display:none">' + G('glow') + '</g><g opacity="0.5"><rect width="9" height="9" fill="url(#glow)"/><rect x="5" width="9" height="9" fill="url(#glow)"/></g></svg>'
     for ids in (['a.b', 'c:d'], ['gr\u00fcn', '\u03b1\u03b2'], ['x-1_y', 'Verlauf-gr\u00fcn.2']):
         for tf in ('', ' transform="translate(2,3)"'):
             yield H + '<defs>' + ''.join(G(i) for i in ids) + '</defs>' + ''.join(f'<rect x="{5 * k}" y="2" width="4" height="9" fill="url(#{i})"{tf}/>' for k, i in enumerate(ids)) + '</svg>'
